@@ -12,7 +12,6 @@ import (
 	"verif/harness/lib"
 )
 
-func init() { drivers["C17"] = runC17 }
 
 const c17Header = `From Shovel Require Import Base.Outcome Model.Hex Model.Bint Corr.RunC17.
 From Coq Require Import List NArith. Import ListNotations. Open Scope N_scope.`
